@@ -80,6 +80,17 @@ func init() {
 		Rule:       "adversarial cases aimed at poisoning what correct nodes later emit; every delivery of a correct node's NEW_VIEW / VIEW_CHANGE / PREPARE / COMMIT to a correct peer that meets the stated precondition is judged for acceptance; non-trivial = a NEW_VIEW delivery was judged in a case with adversarial deliveries",
 		Floors:     map[string]int{"C11 judged NEW_VIEW": 1000, "C11 judged VIEW_CHANGE": 3000, "C11 judged PREPARE": 3000, "C11 judged COMMIT": 3000},
 		Judged:     []string{"C11 judged NEW_VIEW", "C11 judged VIEW_CHANGE", "C11 judged PREPARE", "C11 judged COMMIT", "C11 NV precondition unmet", "C11 VC precondition unmet", "C11 P precondition unmet"}})
+	reg(&sim.SimCheck{Prop: "C05", Workload: "c05", Profile: func(th bool) *sim.Profile {
+		p := advProfile(merge(noBare, map[string]int{"vcGames": 25, "support": 15, "outsider": 8, "hugeView": 6, "garbage": 4, "mutate": 20}), 300, 2)(th)
+		p.Tail = true
+		p.NoRejects = true // the property is about proposals the consumer accepts
+		return p
+	},
+		QuickCases: 4000, ThoroughCases: 80000,
+		NonTrivial: func(r *sim.Result) bool { return r.Stats["C05 tails starting above view 0"] > 0 },
+		Rule:       "random adversarial prefix (as C01, 300 steps, partitions, starvation, drops) then a stabilised tail: laggards synced, every in-flight message delivered before the next virtual timer (base*2^view) expires, timers in virtual-time order, adversary still active. Judged: (a) a correct node commits the height before any correct node's view exceeds vmax+2n+2; (b) if the committing view's proposal was emitted after stabilisation every correct node that stored it commits it. non-trivial = the tail started from a state above view 0",
+		Floors:     map[string]int{"C05 tails judged": 1500, "C05 tails with commit": 1500, "C05 completeness judged": 300, "C05 tails starting above view 0": 500},
+		Judged:     []string{"C05 tails judged", "C05 tails with commit", "C05 completeness judged", "C05 tails starting above view 0", "C05 completeness not judged: committing view's proposal predates stabilisation", "C05 not judged: every explored height already decided"}})
 	reg(&sim.SimCheck{Prop: "C18", Workload: "c18", Profile: advProfile(merge(noBare, map[string]int{"hugeView": 10, "vcGames": 15}), 500, 2),
 		QuickCases: 1500, ThoroughCases: 40000,
 		NonTrivial: func(r *sim.Result) bool { return r.Stats["C18 view change destinations judged"] > 3 },
